@@ -731,7 +731,11 @@ func (x *Exec) runLoop(f *frame, L *loopInfo) {
 				// a goroutine body run as a call: after the bound it is parked at its next wait (no claim about later iterations)
 				break
 			}
-			if assumeMode && x.thr != nil && x.thr.NoWait {
+			if assumeMode && x.thr == nil && strings.HasSuffix(baseName(L.header.Parent()), ".lockBucket") {
+				// sequential code spinning on a bucket lock: nobody can ever release it (self-deadlock,
+				// e.g. a callback invoked while the bucket lock is held re-enters the map)
+				x.oblige("deadlock", g, "lockBucket would spin for ever: the bucket lock is already held by this goroutine", L.header.Instrs[0].Pos())
+			} else if assumeMode && x.thr != nil && x.thr.NoWait {
 				x.oblige("blocked", g, fmt.Sprintf("spin loop %s: a reader would have to wait for a stalled writer", L.name), L.header.Instrs[0].Pos())
 			} else if assumeMode {
 				x.Assume(g, x.U.False, "")
